@@ -464,15 +464,14 @@ func (w *worker[T, JobType]) goListenToContext() {
 	go func(c context.Context) {
 		<-c.Done()
 
-		// Restart cancels the context of the previous run and installs a new one:
-		// only the listener of the current context may stop the worker
-		w.mx.RLock()
-		current := w.ctx == c
-		w.mx.RUnlock()
-
-		if current {
-			w.Stop()
+		// Stop and Restart cancel the worker's own context themselves. Only a cancellation that
+		// comes from the configured (parent) context has to stop the worker, and that one is
+		// permanent, so it does not matter which run this listener was started for.
+		if w.Configs.ctx.Err() == nil {
+			return
 		}
+
+		w.Stop()
 	}(w.ctx)
 }
 
